@@ -1,4 +1,5 @@
 From Coq Require Import Extraction ExtrOcamlBasic ZArith NArith List.
 From MW Require Import PyBase Escape.
 Definition n_escape (c : N) (ent : list N) (v : value) : list N := str_value (escape c ent v).
-Extraction "escape_model.ml" Z.succ N.succ Nat.succ n_escape.
+Definition n_open_renders (c : N) (v : value) : bool := open_renders c v.
+Extraction "escape_model.ml" Z.succ N.succ Nat.succ n_escape n_open_renders.
